@@ -7,6 +7,14 @@ THEOREMS = [
     "GE.PA.covers",
     "GE.PA.covers_arr",
 ]
+THM_GUARD = [
+    "GE.PA.Guard.guard_sound",
+    "GE.PA.Guard.analyze_sound",
+    "GE.PA.Guard.list_sound",
+    "GE.PA.Guard.branch_covers",
+    "GE.PA.Guard.unchanged_of_related",
+    "GE.PA.Guard.covers_Z",
+]
 
 
 def run(chk):
@@ -18,10 +26,16 @@ def run(chk):
     chk.trusted = ["Lean 4.33 kernel", "axioms ⊆ {propext, Classical.choice, Quot.sound}",
                    "GE/Model/PathAnalysis.lean tied by byte-equality of guard / template-data tree strings with the real generator (stream in the C03 check, re-run here)",
                    "real ProcGenWrapper + RangeListManager under node 22 with a stub backend", "update trees built by the oracle from diff(D,D')"]
-    chk.assumptions = ["PARTIAL: proved = no dependency root is forgotten by the analysis (analysis_covers_fields); the value-level guard_sound and update_refines "
-                       "are established by the oracle only",
+    chk.assumptions = ["PARTIAL: proved = no dependency root is forgotten by the analysis (analysis_covers_fields) and the value-level guard_sound for every "
+                       "expression without an object / array literal (data fields, scope variables, member / index chains, calls, operators, ??, conditionals): "
+                       "tree covers diff and guard false => same value; object / array literals and update_refines (the tag / list level) are established by the oracle only",
+                       "guard_sound semantics: values are atoms or objects, member reads null-safe, operators and calls arbitrary pure functions of operand values; "
+                       "hoisted temporaries hold the new index / condition values (TempsOk), scope variables come with covering trees (ScopesOk)",
                        "the list protocol of RangeListManager (TypeScript) is executed, not modelled"]
     failed, log = chk.prove("GE.Thm.C06", THEOREMS)
+    for t in failed:
+        chk.violation("proof", f"obligation {t} no longer checks", theorem=t, log=log[-3000:])
+    failed, log = chk.prove("GE.Thm.C06Guard", THM_GUARD)
     for t in failed:
         chk.violation("proof", f"obligation {t} no longer checks", theorem=t, log=log[-3000:])
     ok, log = core.lake_build(["gedriver"])
